@@ -5,6 +5,7 @@ import Mathlib.Algebra.Order.Field.Basic
 Array layer of the LU phase of `detail::inverse`: what each loop does to the two-dimensional view of the buffer.
 -/
 namespace Amgcl
+open Arr2
 open Finset
 
 section pivot
